@@ -309,6 +309,15 @@ def run_kind(pid: str, kind: str, tier: str) -> int:
             lines += f.result()
         sim = fsim.result()
     ck.exhaustive = True
+    # vacuity guard: the situations the invariants are about must occur in the exhaustive part
+    wit = {"snapshot_member_skipped_after_unsubscribe": sum(1 for ln in lines if ln["obs"]["skips"]),
+           "late_subscriber": sum(1 for ln in lines if ln["obs"]["late"]),
+           "call_on_disposed_subject": sum(1 for ln in lines if any(r in (1, 2) for r in ln["obs"]["res"])),
+           "subscribe_inside_callback": sum(1 for ln in lines if any(c == "sub" and at[1] == 1 for c, at in zip(ln["obs"]["cs"], ln["obs"]["at"]))),
+           "unsubscribe_inside_callback": sum(1 for ln in lines if any(c == "unsub" and at[1] == 1 for c, at in zip(ln["obs"]["cs"], ln["obs"]["at"])))}
+    ck.note("reachability_witnesses", wit)
+    if not all(wit.values()):
+        raise RuntimeError("vacuous exhaustive run: %r" % wit)
     # a simulated behaviour shows one resolution of the model's nondeterminism only: histories with a
     # subscribe on the disposed subject (two accepted outcomes) are judged in the exhaustive part
     lines += [ln for ln in sim if not ln["obs"]["amb"]]
@@ -549,7 +558,7 @@ REPLAY_TIERS = {
                                                     MaxTick=1, MaxDrain=1, MaxUnsub=1, Eager=True, TopCmds=REPLAY_TOP - {"drain", "tick"})),
         ],
         "simulate": (dict(MaxCmds=9, MaxSubs=3, Ticks={1, 2, 3}, Confs=CONFS_T, PlanCodes={11, 21, 31, 12, 14, 22}, MaxNext=5, MaxTerm=2, MaxTick=4,
-                          MaxDrain=3, MaxUnsub=2, Eager=False, TopCmds=REPLAY_TOP - {"dispose"}), 800, 200),
+                          MaxDrain=3, MaxUnsub=2, Eager=False, TopCmds=REPLAY_TOP - {"dispose"}), 600, 200),
     },
     "thorough": {
         "exhaustive": [
@@ -597,6 +606,14 @@ def run_replay(pid: str, tier: str) -> int:
         sim = fsim.result()
     ck.exhaustive = True
     exh_groups = core.group_allowed(lines)
+    wit = {k: sum(1 for ln in lines if ln["obs"][k]) for k in ("edge", "aged", "same", "over")}
+    wit["callback_reaction"] = sum(1 for ln in lines if any(c["p"][0] for c in ln["scn"]["top"]))
+    wit["call_on_disposed_subject"] = sum(1 for ln in lines if any(r in (1, 2) for r in ln["obs"]["res"]))
+    ck.note("reachability_witnesses", {"write_exactly_window_old_at_subscription": wit["edge"], "write_older_than_window": wit["aged"],
+                                       "subscription_at_the_instant_of_a_write": wit["same"], "more_writes_than_buffer_size": wit["over"],
+                                       "callback_reaction": wit["callback_reaction"], "call_on_disposed_subject": wit["call_on_disposed_subject"]})
+    if not all(wit.values()):
+        raise RuntimeError("vacuous exhaustive run: %r" % wit)
     # the claim behind the `amb` flag (used to filter simulated behaviours): unflagged histories have one accepted observation
     bad = sum(1 for scn, allowed in exh_groups if len(allowed) > 1 and not allowed[0]["amb"])
     if bad:
